@@ -98,17 +98,19 @@ type Msg struct{ Header, Body []byte }
 
 // Driver runs one history against one protocol instance.
 type Driver struct {
-	Proto  mangos.ProtocolBase
-	Rec    *mp.Recorder
-	Pipes  map[int]*mp.Pipe
-	Ctxs   map[int]mangos.ProtocolContext
-	mu     sync.Mutex
-	calls  map[int]*Result
-	order  []int
-	Steps  []Step
-	Bad    string // set when the history must be discarded (timing) or shows a hang
-	Stuck  bool
-	MaxGap time.Duration // longest non-pass stimulus
+	Proto   mangos.ProtocolBase
+	Rec     *mp.Recorder
+	Pipes   map[int]*mp.Pipe
+	Ctxs    map[int]mangos.ProtocolContext
+	mu      sync.Mutex
+	calls   map[int]*Result
+	order   []int
+	Steps   []Step
+	timed   bool   // a time stamp was recorded: the history ends with one as well
+	lastEnd int64  // when the latest step ended (ms since the start)
+	Bad     string // set when the history must be discarded (timing) or shows a hang
+	Stuck   bool
+	MaxGap  time.Duration // longest non-pass stimulus
 	// CanonTx rewrites a transmitted (header, body) for comparison (e.g. renames request ids)
 	CanonTx func(pipe int, hdr, body []byte) ([]byte, []byte)
 	// CanonRet rewrites a received message
@@ -245,6 +247,7 @@ func (d *Driver) Finish(stim string, extraObs []string, isPass bool, t0 time.Tim
 	sort.Ints(blocked)
 	st.Blocked = blocked
 	d.Steps = append(d.Steps, st)
+	d.lastEnd = d.NowMs()
 }
 
 // NowMs is the time since the history began, in milliseconds.
@@ -257,6 +260,7 @@ func (d *Driver) NowMs() int64 {
 
 // Tick records the current time as its own step (timed histories: before every stimulus).
 func (d *Driver) Tick() {
+	d.timed = true
 	st := Step{Stim: fmt.Sprintf("STick %d", d.NowMs())}
 	if n := len(d.Steps); n > 0 {
 		st.Blocked = d.Steps[n-1].Blocked
@@ -277,7 +281,13 @@ func (d *Driver) MarkHarnessClose(p *mp.Pipe) { d.harnClose[p] = true }
 func (d *Driver) Coq() string {
 	var sb bytes.Buffer
 	sb.WriteString("[")
-	for i, s := range d.Steps {
+	steps := d.Steps
+	if n := len(steps); d.timed && n > 0 && !strings.HasPrefix(steps[n-1].Stim, "STick") {
+		// a closing time stamp (taken when the last step ended): the checker judges a step that ran long -- a timer fired
+		// inside it -- by the stamp that follows it
+		steps = append(append([]Step{}, steps...), Step{Stim: fmt.Sprintf("STick %d", d.lastEnd), Blocked: steps[n-1].Blocked})
+	}
+	for i, s := range steps {
 		if i > 0 {
 			sb.WriteString(";\n    ")
 		}
